@@ -997,6 +997,18 @@ class Interpreter(BaseInterpreter[TContext, TEvent]):
         )
         await child_interpreter.start()
 
+        # ♻️ An id may be re-used while its previous holder is still alive
+        #    (`spawnChild` with the same explicit id twice). Replacing the map
+        #    entry alone orphaned the earlier actor: nothing - not even this
+        #    interpreter's `stop()` - would ever stop it again.
+        previous = self._actors.get(actor_id)
+        if previous is not None and previous is not child_interpreter:
+            logger.warning(
+                "⚠️ Actor id '%s' re-used while its actor is still alive; "
+                "stopping the earlier actor.",
+                actor_id,
+            )
+            await previous.stop()
         self._actors[actor_id] = child_interpreter
         self._actor_sources[actor_id] = actor_machine_key
         logger.info(
